@@ -11,6 +11,8 @@ import (
 	"math"
 	"reflect"
 	"strings"
+	"sync"
+	"sync/atomic"
 	"testing"
 	"time"
 
@@ -415,6 +417,10 @@ func run(s Script, v *vt.V) {
 				okRepo = true
 			}
 		}
+		if fd.method == "MountBlob" {
+			// the repository a mount writes to (its second name argument)
+			okRepo = args[2].String() == w.newErrs[0].repo
+		}
 		if !okRepo {
 			v.Failf("unset-wrong-error", "%s unset: the constructor was given repository %q, which is none of the call's arguments", fd.method, w.newErrs[0].repo)
 		}
@@ -463,9 +469,101 @@ var propExhaustive = &vt.Prop[Script]{
 	Run:  run,
 }
 
+// (runs first: a process-wide lazily filled cache is only raced on while it is still empty)
+func TestPropConcurrent(t *testing.T) {
+	shard, shards := vt.Shard()
+	vt.Enumerate(t, propConcurrent, false, func(yield func(ConcScript) bool) {
+		k := 0
+		for rep := 0; rep < 20; rep++ {
+			for _, nilT := range []bool{true, false} {
+				for _, ne := range []bool{false, true} {
+					for _, g := range []int{2, 4, 16} {
+						k++
+						if k%shards != shard {
+							continue
+						}
+						if !yield(ConcScript{Nil: nilT, NewError: ne, Goroutines: g}) {
+							return
+						}
+					}
+				}
+			}
+		}
+	})
+}
+
 func TestPropRandom(t *testing.T) {
 	propRandom.Scale = 50
 	vt.Check(t, propRandom)
+}
+
+// ---- concurrent use of a table with unset functions (built with -race) ----
+
+type ConcScript struct {
+	Nil        bool `json:"nil"`
+	NewError   bool `json:"new_error"`
+	Goroutines int  `json:"goroutines"`
+}
+
+var propConcurrent = &vt.Prop[ConcScript]{
+	ID:   "C20",
+	Name: "FuncsConcurrentUnset",
+	Rule: "every method of a nil / empty table (with and without NewError) is called from 2-16 goroutines at once, each goroutine going through all methods starting at a different one; built with -race: a race report, a crash or a panic fails the run, and every call must return the constructor's error or an unsupported-operation error; every case is non-trivial",
+	Run: func(s ConcScript, v *vt.V) {
+		var f *ociregistry.Funcs
+		if !s.Nil {
+			f = &ociregistry.Funcs{}
+			if s.NewError {
+				f.NewError = func(ctx context.Context, methodName, repo string) error { return constructorErr }
+			}
+		}
+		var wg sync.WaitGroup
+		var bad atomic.Value
+		start := make(chan struct{})
+		for g := 0; g < s.Goroutines; g++ {
+			wg.Add(1)
+			go func(g int) {
+				defer wg.Done()
+				defer func() {
+					if r := recover(); r != nil {
+						bad.Store(fmt.Sprintf("panic: %v", r))
+					}
+				}()
+				<-start
+				rv := reflect.ValueOf(f)
+				for k := range fields {
+					fd := fields[(k+g)%len(fields)]
+					m := rv.MethodByName(fd.method)
+					outs := m.Call(argsFor(fd.typ, k, 0))
+					var err error
+					for _, o := range outs {
+						switch {
+						case o.Type() == errType && !o.IsNil():
+							err = o.Interface().(error)
+						case o.Type() == seqStrType:
+							_, err = ociregistry.All(o.Interface().(ociregistry.Seq[string]))
+						case o.Type() == seqDscType:
+							_, err = ociregistry.All(o.Interface().(ociregistry.Seq[ociregistry.Descriptor]))
+						}
+					}
+					if s.NewError && !s.Nil {
+						if err != constructorErr {
+							bad.Store(fmt.Sprintf("%s: got %v, want the constructor's error", fd.method, err))
+						}
+					} else if !errors.Is(err, ociregistry.ErrUnsupported) {
+						bad.Store(fmt.Sprintf("%s: got %v, want an unsupported-operation error", fd.method, err))
+					}
+				}
+			}(g)
+		}
+		close(start)
+		wg.Wait()
+		if x := bad.Load(); x != nil {
+			v.Failf("concurrent-unset", "%d goroutines on a table (nil=%v, NewError=%v): %v", s.Goroutines, s.Nil, s.NewError, x)
+			return
+		}
+		v.NonTrivial(fmt.Sprintf("%v/%v/%d", s.Nil, s.NewError, s.Goroutines))
+	},
 }
 
 func TestPropStructured(t *testing.T) {
@@ -530,5 +628,6 @@ func TestReplay(t *testing.T) {
 	vt.Register(propRandom)
 	vt.Register(propStructured)
 	vt.Register(propExhaustive)
+	vt.Register(propConcurrent)
 	vt.Replay(t)
 }
